@@ -51,3 +51,50 @@ fn c16_common_prefix_only() {
     assert!(c2 >= 0.99, "C16/cosine.common_prefix_left: blocks of the longer left operand beyond the common prefix do not enter the similarity");
     assert!(euclidean(&short, &long) == 0.0 && euclidean(&long, &short) == 0.0, "C16/euclidean.common_prefix: blocks beyond the common prefix do not enter the distance");
 }
+
+/// `n` zero blocks with value `v` at (blk, lane)
+fn unit_at(n: usize, blk: usize, lane: usize, v: f32) -> Feature {
+    let mut f: Feature = Vec::with_capacity(n);
+    for b in 0..n {
+        let mut a = [0.0f32; 8];
+        if b == blk { a[lane] = v; }
+        f.push(f32x8::new(a));
+    }
+    f
+}
+
+fn every_coordinate_counts(n: usize) {
+    let (blk, lane): (usize, usize) = (kani::any(), kani::any());
+    kani::assume(blk < n && lane < 8);
+    let (blk2, lane2): (usize, usize) = (kani::any(), kani::any());
+    kani::assume(blk2 < n && lane2 < 8 && (blk2 != blk || lane2 != lane));
+    let zero = unit_at(n, 0, 0, 0.0);
+    let a = unit_at(n, blk, lane, 2.0);
+    let b = unit_at(n, blk2, lane2, 2.0);
+    kani::cover!(blk == n - 1, "reach/c16_every_coordinate_counts last block");
+    kani::cover!(blk == 0 && n > 1, "reach/c16_every_coordinate_counts first block");
+    let d = euclidean(&a, &zero);
+    assert!(d > 1.9 && d < 2.1, "C16/euclidean.every_coordinate_of_the_common_prefix_counts: two vectors that differ by 2 in exactly one coordinate (any block, any lane) are at distance 2");
+    let s = cosine(&a, &a);
+    assert!(s > 0.99 && s < 1.01, "C16/cosine.every_coordinate_counts_parallel: a vector with a single non-zero coordinate (any block, any lane) has similarity 1 with itself");
+    let o = cosine(&a, &b);
+    assert!(o > -0.01 && o < 0.01, "C16/cosine.every_coordinate_counts_orthogonal: vectors with single non-zero coordinates at different positions have similarity 0");
+}
+
+//@H props=C16 kind=bounded tier=quick stubs=no fn=euclidean,cosine bound="3 packed blocks (lengths 17..=24); the position of the non-zero coordinate symbolic over all 24 lanes" timeout=300
+//@H clause: every coordinate of the common prefix enters both functions, whichever block and lane it sits in (3 blocks)
+#[kani::proof]
+#[kani::unwind(10)]
+fn c16_every_coordinate_counts_3_blocks() { every_coordinate_counts(3); }
+
+//@H props=C16 kind=bounded tier=quick stubs=no fn=euclidean,cosine bound="2 packed blocks (lengths 9..=16); position symbolic" timeout=300
+//@H clause: every coordinate of the common prefix enters both functions, whichever block and lane it sits in (2 blocks)
+#[kani::proof]
+#[kani::unwind(10)]
+fn c16_every_coordinate_counts_2_blocks() { every_coordinate_counts(2); }
+
+//@H props=C16 kind=bounded tier=quick stubs=no fn=euclidean,cosine bound="5 packed blocks (lengths 33..=40); position symbolic" timeout=600
+//@H clause: every coordinate of the common prefix enters both functions, whichever block and lane it sits in (5 blocks)
+#[kani::proof]
+#[kani::unwind(10)]
+fn c16_every_coordinate_counts_5_blocks() { every_coordinate_counts(5); }
